@@ -231,7 +231,9 @@ var c09Scale = []scaleFamily{
 	{"string-split", func(n int) (string, any) { return "split(@, ',')", strings.Repeat("ab,", n/3+1) }},
 	{"string-split-chars", func(n int) (string, any) { return "split(@, '')", strings.Repeat("aé", n/2+1) }},
 	{"string-replace", func(n int) (string, any) { return "replace(@, 'a', 'bb')", strings.Repeat("aé", n/2+1) }},
-	{"string-find", func(n int) (string, any) { return "[find_first(@, 'z'), find_last(@, 'z', `1`)]", strings.Repeat("aé", n/2+1) }},
+	{"string-find", func(n int) (string, any) {
+		return "[find_first(@, 'z'), find_last(@, 'z', `1`)]", strings.Repeat("aé", n/2+1)
+	}},
 	{"string-join", func(n int) (string, any) {
 		a := make([]any, n)
 		for i := range a {
@@ -244,8 +246,12 @@ var c09Scale = []scaleFamily{
 	{"expr-or-chain", func(n int) (string, any) { return strings.Repeat("a||", min(n, 40000)) + "a", map[string]any{"a": nil} }},
 	{"expr-dot-chain", func(n int) (string, any) { return strings.Repeat("a.", min(n, 40000)) + "a", map[string]any{"a": nil} }},
 	{"expr-index-chain", func(n int) (string, any) { return "a" + strings.Repeat("[0]", min(n, 40000)), map[string]any{"a": nil} }},
-	{"expr-paren-nest", func(n int) (string, any) { return strings.Repeat("(", min(n, 9000)) + "a" + strings.Repeat(")", min(n, 9000)), nil }},
-	{"expr-multiselect", func(n int) (string, any) { return "[" + strings.Repeat("a,", n) + "a]", map[string]any{"a": json.Number("1")} }},
+	{"expr-paren-nest", func(n int) (string, any) {
+		return strings.Repeat("(", min(n, 9000)) + "a" + strings.Repeat(")", min(n, 9000)), nil
+	}},
+	{"expr-multiselect", func(n int) (string, any) {
+		return "[" + strings.Repeat("a,", n) + "a]", map[string]any{"a": json.Number("1")}
+	}},
 	{"expr-hash", func(n int) (string, any) {
 		var b strings.Builder
 		b.WriteString("{")
@@ -255,7 +261,9 @@ var c09Scale = []scaleFamily{
 		b.WriteString("z:a}")
 		return b.String(), map[string]any{"a": json.Number("1")}
 	}},
-	{"expr-args", func(n int) (string, any) { return "not_null(" + strings.Repeat("a,", n) + "b)", map[string]any{"b": json.Number("1")} }},
+	{"expr-args", func(n int) (string, any) {
+		return "not_null(" + strings.Repeat("a,", n) + "b)", map[string]any{"b": json.Number("1")}
+	}},
 	{"expr-let-chain", func(n int) (string, any) {
 		m := min(n, 3000)
 		var b strings.Builder
